@@ -7,12 +7,14 @@
                              (the paths of one Go entry function), canonical text compared with the AST pass
    writes <entry> <op,op> -> every write of a tracked field with the lock classes held there ("F:w@Row:W+Sess:R");
                              the AST pass also reports writes to any other field of the shared structs ("imm:T.f")
+   balance / blockcensus / pkgvars -> whole-package censuses (Model/LocksCensus.v): lock/pool balance on every
+                             path, locks held at blocking operations, package-level variables written after init
    gocensus               -> the goroutines started by all `go` statements of the five packages
    unlocked <entry> <op,op> -> tracked fields accessed with no lock held / written under read locks only
    mix <op,op,...> <seed> -> "ok": the model's claim for a concurrent mix is that nothing outside the
                              keys predicted for its pairs can be observed (the harness reports
                              "unexpected:<keys>" otherwise) *)
-From PV Require Import Base.Text Model.Locks Model.LocksOps Model.LocksStatic.
+From PV Require Import Base.Text Model.Locks Model.LocksOps Model.LocksStatic Model.LocksCensus.
 Open Scope string_scope.
 
 Definition TAB : string := String (ascii_of_N 9) EmptyString.
@@ -64,6 +66,12 @@ Definition dispatch (kind : string) (args : list string) : string :=
                   end
     | _ => BADARGS
     end
+  else if String.eqb kind "balance" then
+    match args with [] => out3 census_balance "-" "-" | _ => BADARGS end
+  else if String.eqb kind "blockcensus" then
+    match args with [] => out3 census_blocking "-" "-" | _ => BADARGS end
+  else if String.eqb kind "pkgvars" then
+    match args with [] => out3 census_pkgvars "-" "-" | _ => BADARGS end
   else if String.eqb kind "gocensus" then
     match args with
     | [] => out3 static_gocensus "-" "-"
